@@ -11,6 +11,7 @@ import TsRsVerif.Model.Export
 import TsRsVerif.Driver.ProgIO
 import TsRsVerif.Model.TsNorm
 import TsRsVerif.Model.TsWitness
+import TsRsVerif.Model.Attr
 open Lean TsRs
 
 def gs (j : Json) (k : String) : Str :=
@@ -210,6 +211,29 @@ structure DState where
   chars : List CharRow := []
   uni : Export.Universe := []
 
+partial def tokOf (j : Json) : Tok :=
+  match j.getObjValAs? String "i", j.getObjValAs? String "p", j.getObjValAs? String "s", j.getObjValAs? String "o" with
+  | .ok s, _, _, _ => .ident s
+  | _, .ok p, _, _ => .punct (p.toList.headD ',')
+  | _, _, .ok s, _ => .strLit s
+  | _, _, _, .ok o => .otherLit o
+  | _, _, _, _ => match j.getObjVal? "g" with
+    | .ok (Json.arr a) => .group (a.toList.map tokOf)
+    | _ => .otherLit "?"
+
+def tokLists (j : Json) (k : String) : List (List Tok) :=
+  match j.getObjVal? k with
+  | .ok (Json.arr ls) => ls.toList.map fun l => match l with | Json.arr a => a.toList.map tokOf | _ => []
+  | _ => []
+
+def posOf : String → Pos
+  | "struct" => .struct | "enum" => .enum | "variant" => .variant | _ => .field
+
+def canonParsed (p : Parsed) : String :=
+  let norm := p.map fun (k, v) => (k, if k = "concrete" ∨ k = "bound" then "true" else v)
+  let items := (norm.filter fun (k, _) => k ≠ "crate_rename").map fun (k, v) => k ++ "=" ++ v
+  ";".intercalate (items.toArray.qsort (· < ·)).toList
+
 def handle (ops : CharOps) (j : Json) : Json :=
   match String.ofList (gs j "op") with
   | "inflect_field" =>
@@ -247,6 +271,10 @@ def handle (ops : CharOps) (j : Json) : Json :=
     match TsParse.parseType (gs j "ty") with
     | some t => Json.mkObj [("ok", Json.arr ((Ts.witnesses decls 24 30 t).map fun w => Json.str (ProgIO.render w)).toArray)]
     | none => Json.mkObj [("unparsed_type", S (gs j "ty"))]
+  | "attrs" =>
+    match Attr.fromAttrs (gb j "serde_compat") (posOf (String.ofList (gs j "pos"))) (tokLists j "ts") (tokLists j "serde") with
+    | .ok p => Json.mkObj [("ok", Json.str (canonParsed p))]
+    | .error m => Json.mkObj [("err", Json.str m)]
   | "oracle_c07" =>
     -- generic declaration vs concrete declaration of one instantiation
     let others : Decls := (gsl j "decls").filterMap fun d => (TsParse.parseDecl d).map fun (n, ps, body) => (n, ps, TsParse.bindParams ps body)
